@@ -512,6 +512,21 @@ pub fn generate(family: &str, r: &mut Rng, count: usize, emit: &mut dyn FnMut(St
                 // an arbitrary value
                 let any = crate::gen::gen_value(r, &crate::gen::VCFG_ANY, 2);
                 emit(format!("de {} {} ;; {}", e.name, ty, enc_value_text(&any)));
+                // finite doubles beyond the range of an f32 (and non-finite ones) wherever a number stands
+                if i % 3 == 0 && (e.name.contains("f32") || e.name == "tup3" || e.name.starts_with("s")) {
+                    for f in [3.5e38f64, 1e39, -1e300, f64::INFINITY, 3.4028235e38] {
+                        let mut big = v.clone();
+                        fn put(v: &mut Value, f: f64) -> bool {
+                            match v {
+                                Value::Number(_) => { *v = Value::from(f); true }
+                                Value::Cons(c) => put(c.car_mut(), f) || put(c.cdr_mut(), f),
+                                Value::Vector(xs) => { let mut xs2: Vec<Value> = xs.to_vec(); let r = xs2.iter_mut().any(|x| put(x, f)); *v = Value::Vector(xs2.into()); r }
+                                _ => false,
+                            }
+                        }
+                        if put(&mut big, f) { emit(format!("de {} {} ;; {}", e.name, ty, enc_value_text(&big))); }
+                    }
+                }
                 // a long string / symbol / byte vector where something else is expected: error reporting quotes or
                 // measures the offending value; multi-byte characters sit at every alignment around the 64th byte
                 if i % 4 == 0 {
